@@ -146,6 +146,8 @@ pub struct Ctx {
     /// distinct non-trivial cases counted in bulk (complete enumerations: one per enumerated value)
     pub bulk_distinct: AtomicU64,
     pub stop: AtomicBool,
+    pub shrinker_taken: AtomicBool,
+    pub shrink_iters: std::sync::atomic::AtomicU32,
     pub strict: bool,
 }
 
@@ -171,6 +173,8 @@ impl Ctx {
             exhaustive: AtomicBool::new(false),
             bulk_distinct: AtomicU64::new(0),
             stop: AtomicBool::new(false),
+            shrinker_taken: AtomicBool::new(false),
+            shrink_iters: std::sync::atomic::AtomicU32::new(1500),
             strict: false,
         }
     }
@@ -265,7 +269,7 @@ impl Ctx {
                     let cfg = Config {
                         cases: cases_per_thread,
                         failure_persistence: None,
-                        max_shrink_iters: 1500,
+                        max_shrink_iters: self.shrink_iters.load(Ordering::Relaxed),
                         max_global_rejects: 100_000,
                         ..Config::default()
                     };
@@ -297,6 +301,11 @@ impl Ctx {
                                     *lv = Some(same.clone());
                                     return Err(TestCaseError::fail(same.sig.clone()));
                                 }
+                                return Ok(());
+                            }
+                            // only the first failing runner shrinks; the others give up
+                            if self.shrinker_taken.swap(true, Ordering::SeqCst) {
+                                self.stop.store(true, Ordering::SeqCst);
                                 return Ok(());
                             }
                             *lv = Some(v.clone());
